@@ -60,7 +60,8 @@ def real_to_complex(z, axis=0):
         h[N // 2] = 2 if N % 2 else 1
 
     z = scipy.fft.ifft(scipy.fft.fft(z, axis=axis) * h[tuple(ind)], axis=axis)
-    z *= np.exp(-1j * np.pi / 2 * np.arange(N))[tuple(ind)]
+    # exp(-i pi n / 2) takes four values only: exact, whatever the length
+    z *= np.resize(np.array([1, -1j, -1, 1j]), N)[tuple(ind)]
 
     # Decimate signal by factor of 2 (along axis)
     dec = [slice(None)] * z.ndim
